@@ -471,6 +471,44 @@ CONSUMERS |= {"map"}
 # member classes whose `__hash__` is Python code that can raise: building a set of them evaluates it for every element
 X5_HASHED_MEMBERS = {("packaging.specifiers", "Specifier")}
 # --- x5 end -----------------------------------------------------------------------------------------------------------
+# --- x6: sixth round (platform remainder, C16; run-time additions in lean/PkgModel/PyPlat.lean, PyElf.lean) --------------
+SELECTED += [
+    ("_parse_musl_version", "packaging._musllinux", "_parse_musl_version"),
+    ("_musllinux.platform_tags", "packaging._musllinux", "platform_tags"),
+    ("_is_compatible", "packaging._manylinux", "_is_compatible"),
+    ("_manylinux.platform_tags", "packaging._manylinux", "platform_tags"),
+    ("_linux_platforms", "packaging.tags", "_linux_platforms"),
+    ("mac_platforms", "packaging.tags", "mac_platforms"),
+    ("ios_platforms", "packaging.tags", "ios_platforms"),
+    ("tags.platform_tags", "packaging.tags", "platform_tags"),
+]
+X6_IMPORT = "PkgModel.PyPlat"
+# modules whose function bodies go through the x6 rewriting pass (`Fn.x6_prepare`) before the analyses
+X6_MODULES = {"packaging._manylinux", "packaging._musllinux", "packaging.tags", "packaging._elffile"}
+# functions of these modules that existed before x6 keep their translation byte for byte: the pass only runs for the
+# functions listed here and for helpers first reached from them
+X6_FUNCTIONS = {
+    ("packaging._musllinux", "_parse_musl_version"), ("packaging._musllinux", "platform_tags"),
+    ("packaging._manylinux", "_is_compatible"), ("packaging._manylinux", "platform_tags"),
+    ("packaging._manylinux", "_have_compatible_abi"), ("packaging._manylinux", "_is_linux_armhf"),
+    ("packaging._manylinux", "_is_linux_i686"), ("packaging._manylinux", "_get_glibc_version"),
+    ("packaging.tags", "_linux_platforms"), ("packaging.tags", "mac_platforms"), ("packaging.tags", "ios_platforms"),
+    ("packaging.tags", "platform_tags"), ("packaging.tags", "_generic_platforms"),
+    ("packaging._elffile", "ELFFile.__init__"), ("packaging._elffile", "ELFFile.interpreter"),
+}
+METHODS.update({"splitlines": ("PyPlat.str_splitlines", 0)})
+UNICODE_STRIP["packaging._musllinux"] = ("PySet.str_strip", X5_IMPORT)
+EXTERNAL_READS |= {"sys.executable", "sys.implementation._multiarch", "_32_BIT_INTERPRETER"}
+# probes of the world outside: calls become look-ups in the environment table (`PyRt.env_call`)
+EXTERNAL_CALLS |= {"sysconfig.get_platform", "platform.mac_ver", "platform.ios_ver", "platform.system",
+                   "_get_musl_version", "_parse_elf"}
+# `functools.lru_cache` wrappers that are translated through `__wrapped__`: the function reads nothing but the
+# environment, which is fixed during a run, so the cache cannot be observed
+X6_TRANSPARENT_CACHES = {("packaging._manylinux", "_get_glibc_version")}
+# context managers that are probes: `with P(a) as f: body` is `f = P(a)` followed by the body (the manager of `_parse_elf`
+# yields the parsed file or None; nothing in the bodies can raise what it would swallow)
+X6_ENV_CONTEXTS = {"_parse_elf"}
+# --- x6 end -----------------------------------------------------------------------------------------------------------
 
 
 # ---------------------------------------------------------------------------------------------- one function
@@ -949,6 +987,7 @@ class Fn:
         self.lines.append("  " * indent + text)
 
     def translate(self):
+        self.x6_prepare()                                     # x6: rewriting pass over the ast
         self.analyse()
         params = self.params()
         sig = " ".join(lname(p) for p in params)
@@ -1854,6 +1893,9 @@ class Fn:
                     continue
                 raise Unsupported("**kwargs in a call")
             kws[k.arg] = k.value
+        r6 = self.x6_call(e, kws)                             # x6
+        if r6 is not None:
+            return r6
         r3 = self.x3_call(e, kws)
         if r3 is not None:
             return r3
@@ -3608,6 +3650,343 @@ class Fn:
                 return False, f"PyRt.map_ {self.fn_arg(lam)} {self.val(args[1])}"
         return None
     # ================================================================================================ x5 end
+
+    # ================================================================================================ x6 extensions
+    # A rewriting pass over the function's ast (`x6_prepare`, before the analyses) brings the platform code into the subset:
+    # `import m` inside a function, `with <probe>(…) as f`, unpacking into more than three names / into attributes, named
+    # tuples as plain tuples (`.field` by index), module-level dicts with tuple keys, `&`, enum members, `str.format` with
+    # keyword fields, `subprocess.run(…).stdout` as a read of the environment keyed by the source text of the call.  The
+    # pseudo-calls `__x6_*` it leaves are translated by `x6_call`.
+    def x6_active(self):
+        return (self.pyfunc.__module__, self.pyfunc.__qualname__) in X6_FUNCTIONS
+
+    def x6_prepare(self):
+        if not self.x6_active():
+            return
+        self.node = _X6Rewrite(self).run(self.node)
+        ast.fix_missing_locations(self.node)
+
+    def x6_import_locals(self):
+        return {t.id for n in _walk_scope(self.node.body) if isinstance(n, ast.Assign) and isinstance(n.value, ast.Call)
+                and isinstance(n.value.func, ast.Name) and n.value.func.id == "__x6_import" for t in n.targets
+                if isinstance(t, ast.Name)}
+
+    def x6_gdict(self, name):
+        d = self.globals.get(name)
+        if not isinstance(d, dict):
+            raise Unsupported(f"{name} is not a module-level dict")
+        rows = ", ".join(f"({lconst(k)}, {lconst(v)})" for k, v in d.items())
+        dflt = "Option.none"
+        factory = getattr(d, "default_factory", None)
+        if factory is not None:
+            dflt = f"(some {lconst(factory())})"
+        return f"[{rows}]", dflt
+
+    def x6_call(self, e, kws):
+        f = e.func
+        # a probe that is *also* translated (`platform_tags`): its callers of the earlier rounds keep reading the table
+        if isinstance(f, ast.Name) and f.id in EXTERNAL_CALLS and f.id not in self.locals and not kws \
+                and inspect.isfunction(self.globals.get(f.id)) and self.ctx.lean_name_of(self.globals[f.id]) is not None:
+            args = ", ".join(self.val(a) for a in e.args)
+            return False, f'PyRt.env_call {self.use_env()} "{f.id}" [{args}]'
+        if not self.x6_active():
+            return None
+        use = lambda: self.ctx.imports.add(X6_IMPORT)
+        if isinstance(f, ast.Name) and f.id.startswith("__x6_"):
+            use()
+            a = e.args
+            if f.id == "__x6_import":
+                return False, f'PyPlat.env_import {self.use_env()} "{a[0].value}"'
+            if f.id == "__x6_env_read":
+                key = a[0].value.replace("\\", "\\\\").replace('"', '\\"')
+                return False, f'PyPlat.env_read {self.use_env()} "{key}"'
+            if f.id == "__x6_tuple_n":
+                return False, f"PyPlat.tuple_n {self.val(a[0])} {self.val(a[1])}"
+            if f.id == "__x6_unpack":
+                return False, f"PyPlat.unpack_n {self.val(a[0])} {self.val(a[1])}"
+            if f.id == "__x6_gdict_contains":
+                rows, _ = self.x6_gdict(a[0].value)
+                return False, f"PyPlat.gdict_contains {rows} {self.val(a[1])}"
+            if f.id == "__x6_gdict_getitem":
+                rows, dflt = self.x6_gdict(a[0].value)
+                return False, f"PyPlat.gdict_getitem {rows} {dflt} {self.val(a[1])}"
+            if f.id == "__x6_dict_lookup":
+                d = a[0]
+                rows = ", ".join(f"({lconst(ast.literal_eval(k))}, {self.val(v)})" for k, v in zip(d.keys, d.values))
+                return False, f"PyPlat.gdict_getitem [{rows}] Option.none {self.val(a[1])}"
+            if f.id == "__x6_dict_get":
+                return False, f"PyRt.dict_get {self.val(a[0])} {self.val(a[1])} {self.val(a[2])}"
+            if f.id == "__x6_bitand":
+                return False, f"PyPlat.bitand {self.val(a[0])} {self.val(a[1])}"
+            r = self.x6_elf_call(e, kws)
+            if r is not None:
+                return r
+            raise Unsupported(f"pseudo-call {f.id}")
+        mods = self.x6_import_locals()
+        if isinstance(f, ast.Name) and f.id == "hasattr" and len(e.args) == 2 and not kws and isinstance(e.args[0], ast.Name) \
+                and e.args[0].id in mods and isinstance(e.args[1], ast.Constant) and isinstance(e.args[1].value, str):
+            use()
+            return True, f'(PyPlat.hasattr {self.val(e.args[0])} "{e.args[1].value}")'
+        if isinstance(f, ast.Attribute) and isinstance(f.value, ast.Name) and f.value.id in mods and not kws \
+                and not any(isinstance(a, ast.Starred) for a in e.args):
+            use()
+            return False, f'PyPlat.call_attr {self.val(f.value)} "{f.attr}" [' + ", ".join(self.val(a) for a in e.args) + "]"
+        if isinstance(f, ast.Name) and f.id not in self.locals and f.id not in self.bound_stack():
+            v = self.globals.get(f.id)
+            if type(v).__name__ == "_lru_cache_wrapper" and inspect.isfunction(getattr(v, "__wrapped__", None)):
+                w = v.__wrapped__
+                if (w.__module__, w.__qualname__) in X6_TRANSPARENT_CACHES:
+                    name = self.ctx.require(w)
+                    return False, self.call_selected(name, self.bind_args(w, e.args, kws))
+                if f.id in EXTERNAL_CALLS and not kws:
+                    args = ", ".join(self.val(a) for a in e.args)
+                    return False, f'PyRt.env_call {self.use_env()} "{f.id}" [{args}]'
+                raise Unsupported(f"call of the cached function {f.id}")
+        # `<module of the library>.<function>(…)`: a function of another module of packaging, translated as well
+        if isinstance(f, ast.Attribute) and isinstance(f.value, ast.Name) and f.value.id not in self.locals \
+                and f.value.id not in self.bound_stack() and inspect.ismodule(self.globals.get(f.value.id)) \
+                and (self.globals[f.value.id].__name__ or "").startswith("packaging."):
+            m = self.globals[f.value.id]
+            v = getattr(m, f.attr, None)
+            if inspect.isfunction(v) and v.__module__ == m.__name__:
+                name = self.ctx.require(v, name=m.__name__.split(".")[-1] + "." + v.__qualname__)
+                return False, self.call_selected(name, self.bind_args(v, e.args, kws))
+        return None
+
+    def x6_elf_call(self, e, kws):
+        return None
+    # ================================================================================================ x6 end
+
+
+# ---------------------------------------------------------------------------------------------- x6: the rewriting pass
+class _X6Rewrite(ast.NodeTransformer):
+    """x6: brings constructs of the platform code into the translated subset (see `Fn.x6_prepare`); every rewrite keeps
+    Python's evaluation order, and what cannot be rewritten faithfully is left alone (and then refused by the translator)"""
+
+    def __init__(self, fn):
+        self.fn = fn
+        self.g = fn.globals
+        self.n = 0
+        self.nts = {k: v for k, v in self.g.items() if inspect.isclass(v) and issubclass(v, tuple) and hasattr(v, "_fields")
+                    and (v.__module__ or "").startswith("packaging")}
+        idx = {}
+        for c in self.nts.values():
+            for i, fld in enumerate(c._fields):
+                idx.setdefault(fld, set()).add(i)
+        self.nt_index = {fld: next(iter(s)) for fld, s in idx.items() if len(s) == 1}
+
+    def run(self, node):
+        self.local_names = {n.id for n in ast.walk(node) if isinstance(n, ast.Name) and isinstance(n.ctx, ast.Store)} \
+            | {a.arg for a in node.args.args + node.args.kwonlyargs}
+        self.const_locals = {}
+        for n in ast.walk(node):
+            if isinstance(n, ast.Assign) and len(n.targets) == 1 and isinstance(n.targets[0], ast.Name):
+                self.const_locals.setdefault(n.targets[0].id, []).append(n.value)
+        for n in ast.walk(node):
+            if isinstance(n, ast.Import):
+                self.local_names |= {a.name for a in n.names}
+        # a local bound once to a set display of constants and only used as the right operand of `in` is read as a tuple
+        for name, vals in self.const_locals.items():
+            if len(vals) == 1 and isinstance(vals[0], ast.Set) and all(isinstance(x, ast.Constant) and isinstance(x.value, (str, int))
+                                                                     for x in vals[0].elts):
+                uses = [n for n in ast.walk(node) if isinstance(n, ast.Name) and n.id == name and isinstance(n.ctx, ast.Load)]
+                ok = {id(c.comparators[0]) for c in ast.walk(node) if isinstance(c, ast.Compare) and len(c.ops) == 1
+                      and isinstance(c.ops[0], (ast.In, ast.NotIn))}
+                if uses and all(id(u) in ok for u in uses):
+                    for a in ast.walk(node):
+                        if isinstance(a, ast.Assign) and a.value is vals[0]:
+                            a.value = ast.copy_location(ast.Tuple(elts=list(vals[0].elts), ctx=ast.Load()), vals[0])
+        node.body = self.block(node.body)
+        return node
+
+    def block(self, stmts):
+        out = []
+        for st in stmts:
+            r = self.visit(st)
+            out.extend(r if isinstance(r, list) else [r])
+        return out
+
+    def fresh(self):
+        self.n += 1
+        return f"__x6t{self.n}"
+
+    def call(self, name, *args):
+        return ast.Call(func=ast.Name(id=name, ctx=ast.Load()), args=list(args), keywords=[])
+
+    def is_global(self, name):
+        return name not in self.local_names and name in self.g
+
+    # -- statements
+    def generic_block(self, node):
+        for field in ("body", "orelse", "finalbody"):
+            if isinstance(getattr(node, field, None), list) and getattr(node, field) and isinstance(getattr(node, field)[0], ast.stmt):
+                setattr(node, field, self.block(getattr(node, field)))
+        return node
+
+    def visit_Import(self, node):
+        if len(node.names) == 1 and node.names[0].asname is None and "." not in node.names[0].name:
+            m = node.names[0].name
+            return ast.copy_location(ast.Assign(targets=[ast.Name(id=m, ctx=ast.Store())],
+                                                value=self.call("__x6_import", ast.Constant(m))), node)
+        return node
+
+    def visit_With(self, node):
+        node = self.generic_visit(node)
+        if len(node.items) == 1:
+            it = node.items[0]
+            c = it.context_expr
+            if isinstance(c, ast.Call) and isinstance(c.func, ast.Name) and c.func.id in X6_ENV_CONTEXTS and self.is_global(c.func.id) \
+                    and isinstance(it.optional_vars, ast.Name):
+                return [ast.copy_location(ast.Assign(targets=[ast.Name(id=it.optional_vars.id, ctx=ast.Store())], value=c), node)] \
+                    + list(node.body)
+        return node
+
+    def visit_Assign(self, node):
+        node = self.generic_visit(node)
+        if len(node.targets) == 1 and isinstance(node.targets[0], (ast.Tuple, ast.List)):
+            elts = node.targets[0].elts
+            plain = all(isinstance(t, ast.Name) for t in elts)
+            simple = all(isinstance(t, ast.Name) or (isinstance(t, ast.Attribute) and isinstance(t.value, ast.Name)) for t in elts)
+            parallel = isinstance(node.value, (ast.Tuple, ast.List)) and len(node.value.elts) == len(elts)
+            if simple and not parallel and (len(elts) > 3 or not plain):
+                t = self.fresh()
+                self.local_names.add(t)
+                out = [ast.Assign(targets=[ast.Name(id=t, ctx=ast.Store())],
+                                  value=self.call("__x6_unpack", node.value, ast.Constant(len(elts))))]
+                for i, tgt in enumerate(elts):
+                    out.append(ast.Assign(targets=[tgt], value=ast.Subscript(value=ast.Name(id=t, ctx=ast.Load()),
+                                                                             slice=ast.Constant(i), ctx=ast.Load())))
+                return [ast.copy_location(x, node) for x in out]
+        return node
+
+    # -- expressions
+    def visit_Attribute(self, node):
+        node = self.generic_visit(node)
+        if not isinstance(node.ctx, ast.Load):
+            return node
+        b = node.value
+        if isinstance(b, ast.Name) and self.is_global(b.id):
+            import enum
+            v = self.g[b.id]
+            if inspect.isclass(v) and issubclass(v, enum.Enum) and node.attr in v.__members__ and isinstance(v[node.attr].value, int):
+                return ast.copy_location(ast.Constant(int(v[node.attr].value)), node)
+            if inspect.ismodule(v) or inspect.isclass(v):
+                return node
+        if node.attr == "stdout" and isinstance(b, ast.Call) and _dotted(b.func) == ["subprocess", "run"] and self.is_global("subprocess"):
+            return ast.copy_location(self.call("__x6_env_read", ast.Constant(ast.unparse(node))), node)
+        if node.attr in self.nt_index and not (isinstance(b, ast.Name) and b.id in ("self", "cls")):
+            return ast.copy_location(ast.Subscript(value=b, slice=ast.Constant(self.nt_index[node.attr]), ctx=ast.Load()), node)
+        return node
+
+    def visit_Call(self, node):
+        node = self.generic_visit(node)
+        f = node.func
+        if isinstance(f, ast.Name) and self.is_global(f.id) and self.g[f.id] in self.nts.values():
+            c = self.g[f.id]
+            if len(node.args) == 1 and isinstance(node.args[0], ast.Starred) and not node.keywords:
+                return ast.copy_location(self.call("__x6_tuple_n", node.args[0].value, ast.Constant(len(c._fields))), node)
+            if not any(isinstance(a, ast.Starred) for a in node.args) and all(k.arg is not None for k in node.keywords):
+                names = list(c._fields[:len(node.args)]) + [k.arg for k in node.keywords]
+                if names == list(c._fields):       # every field, in field order: evaluation order is the display's
+                    return ast.copy_location(ast.Tuple(elts=list(node.args) + [k.value for k in node.keywords], ctx=ast.Load()), node)
+            return node
+        # a parameter left to its default, where the default is a probe of the interpreter (`_32_BIT_INTERPRETER`)
+        if isinstance(f, ast.Name) and self.is_global(f.id) and inspect.isfunction(self.g[f.id]) \
+                and (self.g[f.id].__module__ or "").startswith("packaging") and not any(isinstance(a, ast.Starred) for a in node.args) \
+                and all(k.arg is not None for k in node.keywords):
+            try:
+                fd = ast.parse(textwrap.dedent(inspect.getsource(self.g[f.id]))).body[0]
+            except (OSError, SyntaxError, TypeError):
+                fd = None
+            if isinstance(fd, ast.FunctionDef) and not fd.args.vararg and not fd.args.kwonlyargs:
+                params = [a.arg for a in fd.args.args]
+                defaults = dict(zip(params[len(params) - len(fd.args.defaults):], fd.args.defaults))
+                given = set(params[:len(node.args)]) | {k.arg for k in node.keywords}
+                for p_ in params:
+                    d = defaults.get(p_)
+                    if p_ not in given and isinstance(d, ast.Name) and d.id in EXTERNAL_READS and d.id in self.g[f.id].__globals__ \
+                            and d.id in self.g:
+                        node.keywords.append(ast.keyword(arg=p_, value=ast.Name(id=d.id, ctx=ast.Load())))
+            return node
+        if isinstance(f, ast.Attribute) and f.attr == "get" and isinstance(f.value, ast.Dict) and len(node.args) in (1, 2) \
+                and not node.keywords and all(isinstance(k, ast.Constant) and isinstance(k.value, str) for k in f.value.keys):
+            d = node.args[1] if len(node.args) == 2 else ast.Constant(None)
+            return ast.copy_location(self.call("__x6_dict_get", f.value, node.args[0], d), node)
+        # `template.format(k=v, …)`: an f-string, when the fields are the keywords in their order
+        if isinstance(f, ast.Attribute) and f.attr == "format" and not node.args and node.keywords \
+                and all(k.arg is not None for k in node.keywords):
+            tmpl = None
+            if isinstance(f.value, ast.Constant) and isinstance(f.value.value, str):
+                tmpl = f.value.value
+            elif isinstance(f.value, ast.Name) and len(self.const_locals.get(f.value.id, [])) == 1 \
+                    and isinstance(self.const_locals[f.value.id][0], ast.Constant) and isinstance(self.const_locals[f.value.id][0].value, str) \
+                    and f.value.id not in {a.arg for a in self.fn.node.args.args}:
+                tmpl = self.const_locals[f.value.id][0].value
+            if tmpl is not None:
+                import string
+                try:
+                    parts = list(string.Formatter().parse(tmpl))
+                except ValueError:
+                    return node
+                fields = [p[1] for p in parts if p[1] is not None]
+                if fields == [k.arg for k in node.keywords] and all(not p[2] and p[3] is None for p in parts if p[1] is not None):
+                    vals = {k.arg: k.value for k in node.keywords}
+                    js = []
+                    for lit, fld, _, _ in parts:
+                        if lit:
+                            js.append(ast.Constant(lit))
+                        if fld is not None:
+                            js.append(ast.FormattedValue(value=vals[fld], conversion=-1, format_spec=None))
+                    return ast.copy_location(ast.JoinedStr(values=js), node)
+        return node
+
+    def gdict_name(self, e):
+        if isinstance(e, ast.Name) and self.is_global(e.id) and isinstance(self.g[e.id], dict):
+            d = self.g[e.id]
+            try:
+                for k, v in d.items():
+                    lconst(k), lconst(v)
+            except Unsupported:
+                return None
+            return e.id
+        return None
+
+    def visit_Compare(self, node):
+        node = self.generic_visit(node)
+        if len(node.ops) == 1 and isinstance(node.ops[0], (ast.In, ast.NotIn)):
+            name = self.gdict_name(node.comparators[0])
+            if name is not None:
+                c = self.call("__x6_gdict_contains", ast.Constant(name), node.left)
+                if isinstance(node.ops[0], ast.NotIn):
+                    c = ast.UnaryOp(op=ast.Not(), operand=c)
+                return ast.copy_location(c, node)
+        return node
+
+    def visit_Subscript(self, node):
+        node = self.generic_visit(node)
+        if isinstance(node.ctx, ast.Load) and not isinstance(node.slice, ast.Slice):
+            name = self.gdict_name(node.value)
+            if name is not None:
+                return ast.copy_location(self.call("__x6_gdict_getitem", ast.Constant(name), node.slice), node)
+            if isinstance(node.value, ast.Dict) and node.value.keys and all(k is not None for k in node.value.keys):
+                try:
+                    for k in node.value.keys:
+                        lconst(ast.literal_eval(k))
+                except (ValueError, Unsupported):
+                    return node
+                return ast.copy_location(self.call("__x6_dict_lookup", node.value, node.slice), node)
+        return node
+
+    def visit_BinOp(self, node):
+        node = self.generic_visit(node)
+        if isinstance(node.op, ast.BitAnd):
+            return ast.copy_location(self.call("__x6_bitand", node.left, node.right), node)
+        return node
+
+    def visit_FunctionDef(self, node):
+        return node                  # nested scopes are not entered (the outermost function is handled by `run`)
+
+    visit_Lambda = visit_ClassDef = visit_AsyncFunctionDef = visit_FunctionDef
 
 
 _CMP = {ast.Lt: "lt", ast.LtE: "le", ast.Gt: "gt", ast.GtE: "ge"}
